@@ -173,6 +173,8 @@ int flush_pubsub_msgs(void *data, const char *key, void *value) {
             evt_priv_t *msg = new_evt(mm->sub);
             if (msg && flushed) {
                 msg->evt.ps_evt = &mm->msg;
+                /* Same user data the event would carry if delivered by the loop */
+                msg->evt.userdata = mm->sub ? mm->sub->userptr : NULL;
                 m_queue_enqueue(flushed, msg);
                 continue;
             }
